@@ -92,11 +92,14 @@ def events_for(case):
     """reads of the child's stdout: bytes chunks, or (chunks_as = str / mixed) text chunks cut at
     character boundaries - the reader accepts both"""
     chunks = G.chunks_of(case)
+    idle = case.get("idle_hours")
     if case.get("bad_tail_hex"):  # a last read that is not UTF-8 (ends the reader; everything before it was complete)
         chunks = chunks + [bytes.fromhex(case["bad_tail_hex"])]
     mode = case.get("chunks_as", "bytes")
     evs = []
     for i, ch in enumerate(chunks):
+        if idle and i > 0:  # nothing arrives for hours between two reads
+            evs.append({"sleep": int(idle * 3600 * 1024)})
         if mode == "str" or (mode == "mixed" and i % 2 == 1):
             evs.append({"s": ch.decode("utf-8")})
         else:
@@ -188,6 +191,26 @@ def scenario_cases(rng, budget):
     for server in ({"env": {"LOG_LEVEL": "ERROR"}}, {"env": {"LOGGING_LEVEL": "critical"}}, {"env": {"LOG_LEVEL": "debug", "X": ""}, "args": ["-x", ""]}):
         out.append({"items": base + [{"text": t, "term": nl} for t in G.JUNK[:12]] + [notif(1)], "cuts": [n0 // 2], "server": server,
                     "opts": {"scenario": "connection-options"}})
+    # SIZE AND GROWTH: one line far above every buffer (300 KB quick, 1 MB thorough) arriving in many reads with small ones
+    # before and after; the 1000th line of a session; a consumer that comes back after ten minutes
+    for size in ((300_000,) if not thorough else (300_000, 1_000_000)):
+        huge = {"jsonrpc": "2.0", "id": "huge", "result": {"text": ("0123456789abcdef\u00e9\u2028" * (size // 18))}}
+        items = [resp(1), notif(2), {"text": _msg(huge), "term": "\r\n"}, resp(3), notif(4)]
+        nb = len(G.stream_bytes({"items": items}))
+        for step in ((65536,) if not thorough else (4096, 65536, 65537)):
+            out.append({"items": items, "cuts": list(range(step, nb, step)), "opts": {"scenario": "huge-line"}})
+    longrun = [resp(i) if i % 5 else notif(i) for i in range(1200)]
+    out.append({"items": longrun, "cuts": list(range(1000, len(G.stream_bytes({"items": longrun})), 1000)), "opts": {"scenario": "thousandth-message"}})
+    out.append({"items": [resp(i) for i in range(150)], "cuts": [], "opts": {"scenario": "read-stream-late-600s", "consumer": "late", "late_s": 600}})
+    # the process sits idle for hours (virtual clock) between two reads, in the middle of a line and of a character
+    for cuts in ([n0 // 2], [6, n0 - 3]):
+        out.append({"items": base + [notif(5)], "cuts": cuts, "idle_hours": 13, "opts": {"scenario": "idle-for-hours"}})
+    # aliasing: a consumer that scribbles on every object it received; the same lines again afterwards must arrive intact
+    out.append({"items": twins + twins + [notif(1), notif(1)], "cuts": [40], "opts": {"scenario": "consumer-mutates", "consumer": "mutate"}})
+    out.append({"items": base + base, "cuts": [], "opts": {"scenario": "consumer-mutates", "consumer": "mutate", "sessions": 2}})
+    # credential-looking environment of the child, a working directory that does not exist
+    out.append({"items": base, "cuts": [9], "server": {"env": {"API_KEY": "sk-123", "SECRET_TOKEN": "t", "DB_PASSWORD": "p w", "PATH": ""}},
+                "opts": {"scenario": "connection-options"}})
     # nothing but blank / junk lines; the same line many times
     out.append({"items": [{"text": t, "term": rng.choice([nl, "\r\n"])} for t in G.JUNK], "cuts": [], "opts": {"scenario": "junk-only"}})
     out.append({"items": [resp(1, 1)] * 5 + [notif(1)] * 5, "cuts": [10], "opts": {"scenario": "duplicates"}})
@@ -277,7 +300,7 @@ class Chunking(Suite):
         for i, c in enumerate(out):
             sc = c.get("opts", {}).get("scenario")
             if i % 4 == 2 or (sc and sc not in seen):
-                c["debug"] = True
+                c["debug"] = "format" if i % 8 == 2 or (sc and sc not in seen) else True  # formatting handler for half
             if sc:
                 seen.add(sc)
         # several connections alive at once (groups of three consecutive cases run concurrently, equal ids on each)
@@ -317,7 +340,7 @@ class Chunking(Suite):
         opts = case.get("opts", {})
         regs = [{"reg": str(k)} for k in list(opts.get("pending", [])) + list(opts.get("pending_closed", []))]
         return {"m": "stdio_reader", "events": regs + [{"c": bytes.fromhex(e["c"]).hex() if "c" in e else e["s"].encode("utf-8").hex()}
-                                                        for e in events_for(case)], "table": table, "cap": NOTIF_CAP}
+                                                        for e in events_for(case) if "sleep" not in e], "table": table, "cap": NOTIF_CAP}
 
     def model_obs(self, out, case):
         _, msgs = G.line_table([it["text"] for it in case["items"]] + ([case["tail"]] if case.get("tail") else []))
